@@ -378,10 +378,10 @@ prop("C13", harness="h_comp",
           "removing a chosen vertex triggers at least one leaf clean-up removal.",
      assumptions=["simple undirected graphs"])
 prop("C14", harness="h_comp",
-     quick=dict(shards=16, cases=3000, env={"VERIF_MAXN": "12"},
-                extra_phases=[dict(shards=16, cases=150, env={"VERIF_MAXN": "30", "VERIF_MAXM": "90"}, seed_offset=400),
-                              dict(shards=16, cases=25, env={"VERIF_MAXN": "100", "VERIF_MAXM": "220"}, seed_offset=450),
-                              dict(shards=16, cases=60, env={"VERIF_PROFILE": "dense", "VERIF_MAXN": "18"}, seed_offset=480)]),
+     quick=dict(shards=16, cases=2500, env={"VERIF_MAXN": "12"},
+                extra_phases=[dict(shards=16, cases=100, env={"VERIF_MAXN": "30", "VERIF_MAXM": "90"}, seed_offset=400),
+                              dict(shards=16, cases=10, env={"VERIF_MAXN": "100", "VERIF_MAXM": "220"}, seed_offset=450),
+                              dict(shards=16, cases=25, env={"VERIF_PROFILE": "dense", "VERIF_MAXN": "16"}, seed_offset=480)]),
      thorough=dict(shards=16, cases=20000, env={"VERIF_MAXN": "20"},
                    extra_phases=[dict(shards=16, cases=1200, env={"VERIF_MAXN": "45", "VERIF_MAXM": "140"}, seed_offset=400)]),
      rule="Generated graphs x exact palettes x {double,int}; Horton, FVS and ISO builders called directly. Oracle per candidate: edge not a "
@@ -446,6 +446,10 @@ def run_shard(binp, pid, seed, cases, env, excludes, workdir, idx, timeout, max_
         e["TMPDIR"] = td
         e["OMPI_MCA_orte_tmpdir_base"] = td
     rc, out, to = run_proc(cmd, e, timeout)
+    if launcher and launcher[0] == "mpiexec" and rc != 0 and not to and not os.path.exists(statp) and \
+            re.search(r"orte_init|opal_init|unable to create the desired directory|not enough slots|ORTE_ERROR", out):
+        time.sleep(2)   # launcher infrastructure failure before the harness started: retry once
+        rc, out, to = run_proc(cmd, e, timeout)
     st = None
     if os.path.exists(statp):
         try:
